@@ -137,6 +137,10 @@ class TdmsFile(object):
                 read_metadata_only if not self._reader.is_index_file_only() else True,
                 keep_open
             )
+        except BaseException:
+            # Don't leave the file open if it couldn't be read, as the caller has no object to close
+            self._reader.close()
+            raise
         finally:
             if not keep_open:
                 self._reader.close()
